@@ -4,53 +4,7 @@ from pathlib import Path
 
 VERIF = Path(__file__).resolve().parents[1]
 
-CLAIMED = {
-    "C01": dict(
-        text="Lean 4: the textbook meaning `denote` of funsor's term language (Model/Term.lean) is the specification; named-tensor "
-             "operation lemmas and the partial evaluator soundness theorem (Props/C01.lean) are proved for all ranks/sizes. Tie: every "
-             "generated expression is built through funsor's public API eagerly and as syntax, the syntax is serialised to the Lean "
-             "driver and both are compared exactly on the whole finite input space.",
-        note="Trusted: Lean kernel + {propext, Classical.choice, Quot.sound}; hand-written model tied by differential testing; numpy "
-             "primitives modelled as index functions; exact fragment only (no transcendental ops); float64 exact on small integers.",
-        technique="Lean 4 proof over a denotational term model + model/implementation correspondence",
-        design_ref="5 C01"),
-    "C09": dict(
-        text="Lean 4 theorems over any CommSemiring: generalized distributive law (prod_sum_swap), independence of connected components, "
-             "plate regrouping, scale-as-power, one-step invariant step_preserves_unroll with the ordinal-bookkeeping lemmas that "
-             "discharge its side conditions, nested plan = flat unrolling (sum_product_exact_partial). The executable model of the "
-             "elimination loop and the brute-force `unroll` oracle are tied to funsor/sum_product.py by correspondence on every run.",
-        note="Partial: the lift of the step invariant to the whole while-loop of the executable model is not proved (run-time echo "
-             "psp = unroll on every case instead). Gaussian factors outside the model. Trusted: Lean kernel, Mathlib, harness.",
-        technique="Lean 4 proof (Finset sum/product algebra, loop-step invariant) + exhaustive/random factor-graph correspondence",
-        design_ref="5 C09"),
-    "C10": dict(
-        text="Lean 4 theorems (any semigroup, any duration, any num_segments): scan_eq_fold, halveIdx_eq_halve (the Slice/Cat "
-             "index arithmetic), naive_eq_fold, mixed_eq_fold incl. remainder recursion; the model's executable definitions are "
-             "tied to funsor/sum_product.py by a correspondence run on every check (real funsor vs native Lean driver vs fold oracle).",
-        note="Trusted: Lean kernel + {propext, Classical.choice, Quot.sound}; the hand-written model FV.C10 is tied to the code by "
-             "differential testing only; sarkka_bilmes_product is compared with its naive counterpart without a theorem; float64 "
-             "exactness on small integers / dyadics.",
-        technique="Lean 4 proof (fun_induction over the halving scan) + model/implementation correspondence",
-        design_ref="5 C10"),
-    "C14": dict(
-        text="Lean 4 theorems: Delta evaluation/reduction/integration identities, mixed-radix decode/encode bijection for any sizes, "
-             "inverse-CDF index lemma for the draw as the source reads now (valid for 0 <= r < 1, clamp is a no-op in exact arithmetic), "
-             "mass preservation per batch element and particle, Gaussian sample affine/mean/covariance identities over Q. The draw "
-             "statement of Tensor._sample is re-read from /repo's AST on every run (Gen/C14Variant.lean) and the obligation over it "
-             "re-elaborated; RNG-stubbed correspondence with chosen uniforms ties the model to the code.",
-        note="Exact arithmetic: float rounding of cumsum is outside the theorem (covered by dedicated rounding-prone rows in the harness); "
-             "triangular solve / Cholesky enter as hypotheses. Trusted: Lean kernel, Mathlib matrices, translator, harness.",
-        technique="Lean 4 proof + AST translator of the draw statement + RNG-stubbed correspondence",
-        design_ref="5 C14"),
-    "C19": dict(
-        text="Lean 4 theorems for all ranks and sizes: ravel/unravel inverses, toFunsor_sem, toFunsor_rejects_unnamed, "
-             "toData_toFunsor_roundtrip, align_sem (values and inputs order), alignTensor_sem, materialize_sem. Exhaustive "
-             "correspondence (ranks 0-4 quick / 0-5 thorough) where .inputs order and .data layout are the gated observables.",
-        note="Partial: toData for non-sorted name_to_dim and align of lazy terms/Contraction/Delta are tied by correspondence and a Python "
-             "oracle only. Trusted: Lean kernel, harness; numpy reshape/transpose modelled at index level.",
-        technique="Lean 4 proof (index arithmetic by induction) + exhaustive conversion/alignment correspondence",
-        design_ref="5 C19"),
-}
+CLAIMED = json.loads((VERIF / 'fv' / 'claims.json').read_text())
 
 NOT_YET = {}
 
